@@ -9,8 +9,13 @@ def opMockGraph (j : Json) : Json :=
   let g : Graph := (getArr j "edges").map fun e => (getStr e "from", getStrList e "to")
   let roots := getStrList j "roots"
   let fuel := g.length + 2
-  let div := roots.any fun r => mockAssign g fuel r == Outcome.outOfFuel
-  Json.mkObj [("mock_diverges", Json.bool div),
+  -- the fuel-bounded replay of the recursion is itself exponential on DAG-shaped graphs: only run it
+  -- when the unfolded size is small; a saturated estimate on an acyclic graph is reported as work
+  let small := (roots.map fun r => mockWork g (2 ^ 22) r).all (· < 2 ^ 22)
+  let div := if small then roots.any fun r => mockAssign g fuel r == Outcome.outOfFuel else false
+  let cap := 2 ^ 40
+  let work := (roots.map fun r => mockWork g cap r).foldl max 0
+  Json.mkObj [("mock_diverges", Json.bool div), ("mock_work", Json.num (Lean.JsonNumber.fromNat work)),
               ("visited", Json.arr ((collect g [] roots).map jstr).toArray)]
 
 end Sebuf.Driver
